@@ -6,15 +6,17 @@ from .. import core
 PROP = "C16"
 MODULE = "GmqttVerif.Properties.C16"
 THEOREMS = [
-    "GmqttVerif.Fed.applied_is_prefix_exactly_once_partial",
-    "GmqttVerif.Fed.applied_is_prefix_exactly_once_refuted",
+    "GmqttVerif.Fed.applied_is_prefix_exactly_once",
+    "GmqttVerif.Fed.applied_is_prefix_exactly_once_as_is_refuted",
     "GmqttVerif.Fed.unaligned_is_silent",
+    "GmqttVerif.Fed.stale_session_is_empty_and_resynced",
     "GmqttVerif.Fed.no_event_lost_while_session_lasts",
     "GmqttVerif.Fed.lru_only_last_id_needed",
-    "GmqttVerif.Fed.quiescent_equal_partial",
-    "GmqttVerif.Fed.quiescent_equal_refuted",
+    "GmqttVerif.Fed.quiescent_equal",
+    "GmqttVerif.Fed.quiescent_equal_as_is_refuted",
+    "GmqttVerif.Fed.lost_hello_schedule_fixed",
     "GmqttVerif.Fed.stable_stream_reaches_quiescence",
-    "GmqttVerif.Fed.resync_restores_partial",
+    "GmqttVerif.Fed.resync_restores",
     "GmqttVerif.Fed.clean_start_resyncs",
     "GmqttVerif.Fed.localSubs_refcount",
     "GmqttVerif.Fed.localSubs_events_exactly_on_edges",
@@ -476,7 +478,7 @@ def gen_sim(rng):
         ops.append(f"lsub c{rng.randint(1, 3)} {rng.choice(topics)}")
     if rng.random() < 0.4:
         ops.append(f"retain r/{rng.randint(1, 2)} {rng.randint(1, 5)}")
-    lost_hello = rng.random() < 0.10
+    lost_hello = rng.random() < 0.35
     if rng.random() < 0.1:
         ops.append("cut-open")
     ops.append("connect")
@@ -501,6 +503,8 @@ def gen_sim(rng):
         elif r < 0.94:
             if lost_hello and rng.random() < 0.7:
                 ops.append("cut-hello-resp")                        # R processes the next Hello, the response is lost
+            elif rng.random() < 0.1:
+                ops.append("cut-hello-req")                         # the next Hello does not reach R
             ops.append(rng.choice(["peer-restart", "sender-restart"]))
         else:
             ops.append("settle")
@@ -549,10 +553,7 @@ def nontriv_sim(ops, out):
             return True
     return False
 
-def rec_lost_hello(info):
-    return info["stream"] == "fedsim" and any(op == "cut-hello-resp" for op in info["ops"])
-
-RECOGNISERS = {"lost-hello": rec_lost_hello}
+RECOGNISERS = {}
 
 def streams(tier):
     k = 1 if tier == "quick" else 20
@@ -574,14 +575,15 @@ RULE = ("fedqueue: random add/fetch/ack/setpos/clear/close/open histories on the
         "LRU summary, federation tree, retained store, publish log; localsubs: sub/unsub/terminate through the real hook wrappers, "
         "emitted events read back from the real peer queues; fedsim: two real Federation values connected by the real "
         "initStream/serve/EventStream loops over an in-memory stream with cuts after the n-th send, before the n-th ack, at stream open, "
-        "after Hello processing, peer and sender restarts. non-trivial = fedqueue: a reconnect moves the cursor back and a fetch re-sends; "
+        "after Hello processing (answer lost), before Hello reaches the peer, peer and sender restarts; the oracle executes the protocol transition system the theorems are about. non-trivial = fedqueue: a reconnect moves the cursor back and a fetch re-sends; "
         "fedsession: a resumed session re-receives an applied event; localsubs: a shared reference count goes 2→1 silently then 1→0 with an event; "
         "fedsim: a cut followed by further events")
 ASSUME = ["one live stream per (sender, receiver) pair at a time: a node says Hello only after its previous stream has ended on both sides "
           "(two concurrent server-side streams for one session are not modelled; C15)",
           "session ids (uuid) are never reused",
-          "each eventQueue / sessionMgr / localSubStore method is atomic (they hold their mutex); the gap between localSubStore.subscribe and "
-          "queue.add in the hooks is NOT atomic in the code — see findings/c16-hook-order-race.md",
+          "each eventQueue / sessionMgr / localSubStore method is atomic (they hold their mutex); since 1808d86 a hook holds memberMu across "
+          "the localSubStore update and the queue.add calls, so one hook call is one model step (before: findings/c16-hook-order-race.md, "
+          "stress probe harness/cmd/probe_fedrace)",
           "the federation subscription tree is modelled by its specification (set of node×share×filter); stream fedsession-shared compares it with "
           "the real mem.TrieDB under clean starts / node failures with shared entries (F19, fixed in a8278d7)",
           "gRPC delivers stream messages in order and reports a broken connection as an error from Send/Recv; serf membership is an input"]
